@@ -557,8 +557,11 @@ func tail(s string, n int) string {
 // candidates; races are schedule-dependent, so each candidate gets several attempts.
 var sawFailure atomic.Bool
 
-func attempts(r *vf.Run) (tries, rounds int) {
+func attempts(c Case, r *vf.Run) (tries, rounds int) {
 	if os.Getenv("VERIF_REPLAY") != "" {
+		if c.storm() {
+			return 1, 1 // a round of a storm lasts more than a second
+		}
 		return 1, 3 // the driver repeats the replay case itself
 	}
 	if sawFailure.Load() {
@@ -575,7 +578,7 @@ var (
 )
 
 func checkWith(c Case, o *vf.Obs, r *vf.Run) error {
-	tries, rounds := attempts(r)
+	tries, rounds := attempts(c, r)
 	key, _ := json.Marshal(c)
 	var oc outcome
 	cached := false
